@@ -161,6 +161,13 @@ func scenarios(th bool) []scenario {
 			out = append(out, scenario{Class: "mixed-fault", PreHash: idx(m.hash), PreDirect: idx(m.direct), HashFirst: true, Clients: [][]op{h}, Cache: "advH", Faults: "basic", MaxFaults: 1, Bound: 1})
 		}
 	}
+	// entries longer than 64 KiB, both entry types, alone and next to ordinary ones
+	for _, h := range [][]op{{sub("PBig"), seq, read}, {sub("LBig"), sub("PBig"), sub("L1"), seq, rd, read}, {sub("P1"), sub("PBig"), seq, read}} {
+		for _, c := range []string{"noop", "lruN", "advM"} {
+			out = append(out, scenario{Class: "big", Clients: [][]op{h}, Cache: c, Bound: 0})
+		}
+		out = append(out, scenario{Class: "big-fault", Clients: [][]op{h}, Cache: "advH", Faults: "basic", MaxFaults: 1, Bound: 1})
+	}
 	// boundary reads
 	for _, h := range [][]op{
 		{{K: "gep", A: 0, B: 1}}, {{K: "ge", A: 0, B: 0}},
